@@ -486,6 +486,14 @@ func (w *kqueue) readEvents() {
 				continue
 			}
 
+			// The watch for this event may have been removed since the event
+			// was retrieved from the kernel, for example by Remove(), or because
+			// an earlier event in this batch removed it (a directory with its
+			// entries). There is no path to report it with, so skip it.
+			if !ok {
+				continue
+			}
+
 			event := w.newEvent(path.name, path.linkName, mask)
 
 			if event.Has(Rename) || event.Has(Remove) {
